@@ -130,16 +130,22 @@ def flat_types(params):
 def parse_playback(out, ob):
     """concrete values of the failing assertion (or panic) from --concrete-playback=print"""
     blocks = re.findall(r"```\n(.*?)```", out, re.S)
-    best = None
+    best, cover_only = None, None
     for b in blocks:
-        if "Check for `cover`" in b:
-            continue
         if ob.get("fn") and not re.search(r"for harness `[^`]*\bh_%s`" % re.escape(ob["fn"]), b):
             continue  # --harness matches by substring: keep only this harness's own playback
+        if "Check for `cover`" in b:
+            # Kani prints a single test when the trace that reaches the cover also fails the assertion: keep it as a
+            # candidate (the native replay decides whether it really violates the obligation)
+            cover_only = cover_only or b
+            continue
         best = b
         break
+    from_cover = False
     if best is None:
-        return None
+        if cover_only is None:
+            return None
+        best, from_cover = cover_only, True
     vecs = re.findall(r"vec!\[([0-9,\s]*)\],", best)
     vals = [[int(x) for x in v.replace(" ", "").split(",") if x != ""] for v in vecs]
     res, k = {}, 0
@@ -153,6 +159,8 @@ def parse_playback(out, ob):
                 res[n] = decode(t, vals[k]); k += 1
     except Exception:
         return None
+    if from_cover:
+        res["__from_cover__"] = True
     return res
 
 
@@ -325,8 +333,17 @@ def run(ctx, uname, u):
             cex = parse_playback(p2.stdout + p2.stderr, o)
         except Exception as e:
             detail += "\n(playback failed: %s)" % e
+        from_cover = bool(cex.pop("__from_cover__", False)) if cex is not None else False
         if cex is not None and not u.get("append_to"):
             verdict, log = native_replay(ctx, wd, module_text, o, cex)
+            if from_cover and verdict == "holds":
+                # the only trace printed was the one for the reachability cover and it does not violate the obligation
+                cex, verdict = None, None
+                detail += "\n(no playback for the failing assertion was printed)"
+                res["failures"].append({"obligation": o["tag"], "props": props, "message": "; ".join(r["failed_checks"]) or "verification failed",
+                                        "item": o["fn"], "detail": detail[-3000:], "counterexample": None, "replayed": False,
+                                        "replay": {"kind": "kernel", "unit": uname, "fn": o["fn"]}})
+                continue
             if verdict is None:
                 res["status"] = "undecided"
                 res["undecided_reason"] = "native replay for %s could not be built/run: %s" % (o["tag"], log[-300:])
